@@ -149,6 +149,33 @@ def run_mcp_world(kind, seed, known_k8a):
                     if rng.random() < 0.5: a_args['yes'] = False
                     msg_a, env_a, bad_a, _ = C.mcp_call_once(w, tool, a_args)
                     after = w.snapshot(); da = snap_diff(R.base, after); R.back_to_base(after) if da else None
+                    # A': (deploy_apply) yes omitted or false, but WITH the confirm_token of a preceding deploy call: a token is
+                    # not an approval — same refusal, nothing written
+                    if tool == 'deploy_apply':
+                        srv = Mcp(w.sb, {'EDITOR': ''})
+                        try:
+                            common = {k: v for k, v in args.items() if k in ('target', 'profile', 'machine', 'repo')}
+                            m0, e0 = srv.call('deploy', common)
+                            tok = (e0 or {}).get('data', {}).get('confirm_token') if e0 and e0.get('ok') else None
+                            if tok:
+                                t_args = dict(a_args); t_args['confirm_token'] = tok
+                                msg_t, env_t = srv.call(tool, t_args)
+                            else:
+                                env_t = None
+                        finally:
+                            srv.close()
+                        after = w.snapshot(); dt = snap_diff(R.base, after); R.back_to_base(after) if dt else None
+                        if tok:
+                            tcase = {'stream': 'mcp', 'world': kind, 'tool': tool, 'arguments_without_yes': {k: ('<token>' if k == 'confirm_token' else v) for k, v in t_args.items()},
+                                     'without_yes': {'ok': (env_t or {}).get('ok'), 'error': (C.first_error(env_t) or {}).get('code'), 'changed_paths': C.diff_paths(dt, w.sb.root)[:20]}}
+                            if dt and C.only_cache_git(dt, w) and known_k8a:
+                                ctx.known_finding(K8A, K8A_WHAT); dt = {}
+                            if dt:
+                                ctx.violation('MCP tool deploy_apply with a confirm_token but without yes=true changed the sandbox: %s' % (C.diff_paths(dt, w.sb.root)[:6]), tcase)
+                            if not args.get('dry_run') and env_a is not None and C.confirm_refusal(env_a) is not None and C.confirm_refusal(env_t) != C.confirm_refusal(env_a):
+                                ctx.violation('MCP tool deploy_apply without yes=true is refused with E_CONFIRM_REQUIRED, but not when a confirm_token is passed along (%r)'
+                                              % ((C.first_error(env_t) or {}).get('code'),), tcase)
+                            out['counts'].append(((kind, tool, 'token_no_yes', bool(args.get('dry_run'))), True, ['mcp:token_without_yes']))
                     # B: yes = true (deploy_apply needs the token of a preceding deploy call)
                     b_args = dict(args); b_args['yes'] = True
                     pre = None
